@@ -47,15 +47,81 @@ def run(ctx):
                     "known-unsafe regions form the 'confirm' stream")
         cases = K.generate(ctx.rng, ctx.quick(), c12=True)
         ctx.extra["lattice"] = K.lattice_summary(cases)
+        # the three streams only wait for subprocesses: they run side by side, all bookkeeping happens in this thread
+        from concurrent.futures import ThreadPoolExecutor
+        rtc = roundtrip_cases(ctx)
+        pool = ThreadPoolExecutor(2)
+        f_files = pool.submit(files_collect, ctx.quick())
+        f_rt = pool.submit(roundtrip_collect, rtc, ctx.scratch, ctx.quick())
         K.check_cases(ctx, "C12", cases, os.path.join(ctx.scratch, "real"), sanitize=True, memory_only=True)
-        files_stream(ctx)
+        files_judge(ctx, f_files.result())
+        roundtrip_judge(ctx, *f_rt.result())
+        pool.shutdown()
         ctx.assume = ["level partial: the claim is 'the model's bounds arithmetic is proved and the sanitised binary agreed with the model "
                       "on every input of this run'"]
     finally:
         coq_thread.join()
 
 
-def files_stream(ctx):
+def roundtrip_cases(ctx):
+    """The real writer and reader end to end under the sanitised build: generated frames (harness/frames.py: every dtype
+    kind, null patterns, categoricals) x write options (harness/rt.py: v1/v2 pages, multi-page, codecs, has_nulls, stats,
+    row groups, hive).  Only the memory-safety side is judged here (C01 compares the values): a sanitizer report, a signal
+    or a hang is a failure with the frame spec + options as replay."""
+    from harness import frames as F
+    from harness import rt
+    rng = ctx.rng
+    n_rt = 120 if ctx.quick() else 700
+    cases = []
+    for i in range(n_rt):
+        spec = F.gen_spec(rng, n=rng.choice([0, 1, 2, 7, 8, 9, 63, 64, 65, 300] + ([] if ctx.quick() else [1000, 8193])))
+        o = rt.gen_opts(rng, spec)
+        if i % 3 == 0:
+            o["dpv"] = 2                      # data page v2 + OPTIONAL columns: the path with the most native calls
+            o["has_nulls"] = True
+        cases.append({"fn": "rt", "spec": spec, "opts": o, "stream": "main"})
+    # two crashes reported on the unchanged tree (thrift serialiser, C10's code): kept as a confirmation stream
+    cases.append({"fn": "thrift_numpy_int", "stream": "confirm"})
+    cases.append({"fn": "kv_nonascii_big", "n": 400000, "stream": "confirm"})
+    return cases
+
+
+def roundtrip_collect(cases, scratch, quick):
+    worker = os.path.join(os.path.dirname(os.path.abspath(L.__file__)), "codec_rt_worker.py")
+    main_cases = [c for c in cases if c["stream"] == "main"]
+    conf_cases = [c for c in cases if c["stream"] == "confirm"]
+    real = L.run_real(main_cases, os.path.join(scratch, "rt"), sanitize=True, nproc=4 if quick else 8,
+                      max_crashes=10, worker=worker, chunk=30, timeout=600)
+    real += L.run_real(conf_cases, os.path.join(scratch, "rtc"), sanitize=True, nproc=2, max_crashes=10, worker=worker,
+                       timeout=300, chunk=1)
+    return main_cases + conf_cases, real
+
+
+def roundtrip_judge(ctx, cases, real):
+    for c, r in zip(cases, real):
+        if r[0] == "skipped":
+            ctx.count("round trips not run (worker crashed too often)", 1)
+            continue
+        short = {"stream": "roundtrip", "fn": c["fn"], "spec": c.get("spec"), "opts": c.get("opts"), "n": c.get("n")}
+        ctx.case(short, trivial=c["fn"] == "rt" and c["spec"]["n"] == 0)
+        ctx.count("round-trip stream outcome", r[1] if r[0] in ("ok", "exc") else r[0])
+        if c["fn"] == "rt":
+            ctx.count("round-trip data page version", c["opts"]["dpv"])
+        rr = r[3] if (r[0] == "ubsan" and len(r) > 3) else r
+        if r[0] in ("crash", "asan", "ubsan", "missing"):
+            kinds = sorted({col["kind"] for col in c["spec"]["cols"]}) if c["fn"] == "rt" else []
+            ctx.fail({"component": "roundtrip" if c["fn"] == "rt" else c["fn"], "stream": c["stream"], "kind": r[0],
+                      "dpv": (c.get("opts") or {}).get("dpv"), "where": _where(r[2] if len(r) > 2 else "")},
+                     short, "writer/reader under the sanitised build: %r; column kinds %s" % (r[:3], kinds))
+
+
+def _where(report):
+    import re
+    m = re.search(r"in (\w+)|(\w+\.c:\d+)", str(report))
+    return (m.group(1) or m.group(2)) if m else ""
+
+
+def files_collect(quick):
     """Valid files (the repository's test-data: foreign writers, nested, v2 pages, dictionaries, byte arrays, thrift of
     every shape) read end to end under the sanitised build: no model here - the oracle is the property itself
     (no sanitizer report, no signal; a Python exception is allowed)."""
@@ -69,7 +135,7 @@ def files_stream(ctx):
         if e.endswith((".parquet", ".parq")) or (os.path.isdir(p) and (os.path.exists(os.path.join(p, "_metadata"))
                                                                        or any(x.endswith((".parquet", ".parq")) for x in os.listdir(p)))):
             paths.append(p)
-    modes = ["default"] if ctx.quick() else ["default", "nonulls", "rowgroups"]
+    modes = ["default"] if quick else ["default", "nonulls", "rowgroups"]
     jobs = [(p, m) for p in paths for m in modes]
     env = dict(os.environ)
     env.update({"LD_PRELOAD": L.ASAN_LIB, "PYTHONDONTWRITEBYTECODE": "1", "OMP_NUM_THREADS": "1",
@@ -84,8 +150,11 @@ def files_stream(ctx):
             return pm, r.returncode, r.stdout.decode("utf-8", "replace"), r.stderr.decode("utf-8", "replace")
         except subprocess.TimeoutExpired:
             return pm, -999, "", "TIMEOUT"
-    with ThreadPoolExecutor(6 if ctx.quick() else 8) as ex:
-        results = list(ex.map(job, jobs))
+    with ThreadPoolExecutor(6 if quick else 8) as ex:
+        return list(ex.map(job, jobs))
+
+
+def files_judge(ctx, results):
     for (p, m), rc, out, err in results:
         rel = os.path.relpath(p, C.REPO)
         case = {"stream": "files", "path": rel, "mode": m}
@@ -121,7 +190,26 @@ def replay(rep):
         return 1
     if rep["case"].get("stream") == "files":
         return replay_file(rep["case"])
+    if rep["case"].get("stream") == "roundtrip":
+        return replay_roundtrip(rep["case"])
     return K.replay_case(rep["case"], sanitize=True, memory_only=True)
+
+
+def replay_roundtrip(case):
+    import tempfile
+    import shutil
+    tmp = tempfile.mkdtemp(prefix="verif-C12-replay-", dir="/tmp")
+    try:
+        c = {k: v for k, v in case.items() if k in ("fn", "spec", "opts", "n")}
+        worker = os.path.join(os.path.dirname(os.path.abspath(L.__file__)), "codec_rt_worker.py")
+        r = L.run_real([c], tmp, sanitize=True, nproc=1, worker=worker, timeout=600)[0]
+        print("case:", json.dumps(c)[:1500])
+        print("real code under ASan+UBSan:", json.dumps(r)[:800])
+        bad = r[0] in ("crash", "asan", "ubsan", "missing")
+        print("=> property %s on this case" % ("FAILS" if bad else "holds"))
+        return 1 if bad else 0
+    finally:
+        shutil.rmtree(tmp, ignore_errors=True)
 
 
 def replay_file(case):
